@@ -8,6 +8,7 @@ wrappers only count evaluations (zero evaluations of a deciding wrapper => incon
 import functools
 
 import finam as fm
+from finam.adapters.time_integration import TimeIntegrationAdapter
 from finam.sdk.adapter import Adapter, TimeDelayAdapter
 from finam.sdk.component import Component
 from finam.sdk.input import CallbackInput, Input
@@ -111,6 +112,8 @@ class RefusalLog:
         REC.on("ada_source_updated", self._notified)
         REC.on("out_get_data_err", self._err)
         REC.on("ada_get_data_err", self._err)
+        REC.on("ada_get_data", self._asked)
+        self._prev_req, self._cur_req = {}, {}
 
     def _saw(self, slot, time):
         if time is None:
@@ -125,8 +128,19 @@ class RefusalLog:
     def _notified(self, ada, time=None):
         self._saw(ada, time)  # a buffering adapter's history is what it was notified of
 
+    def _asked(self, ada, time=None, _target=None):
+        self._prev_req[ada] = self._cur_req.get(ada)
+        self._cur_req[ada] = time
+
     def _err(self, slot, exc, time=None, _target=None):
-        if not isinstance(exc, fm.FinamTimeError) or time is None or exc is self._classified:
+        if time is None or exc is self._classified:
+            return
+        if isinstance(slot, TimeIntegrationAdapter) and self._prev_req.get(slot) == time:
+            # an integration adapter asked for the time of its previous request again (interval of zero length)
+            self._classified = exc
+            self.events.append(dict(slot=slot.name, where="repeated_request_at_integration_adapter"))
+            return
+        if not isinstance(exc, fm.FinamTimeError):
             return
         self._classified = exc
         lo, hi = self.first.get(slot), self.newest.get(slot)
